@@ -191,12 +191,18 @@ def harness_lines(reqs, plans, tables, rng):
                                                         " ".join(map(str, q["vals"]))))
         elif q["k"] == "A":
             out.append("A %d %d %d %d %d" % (q["s"], q["e"], q["C"], q["LM"], q["total"]))
+        elif q["k"] == "E":
+            out.append("E %d %d %d %d %d %d %d %d | %s" % (q["id"], q["LM"], q["C"], q["s"], q["e"], q["cx"], q["seed"], q.get("lfe", 0),
+                                                          " ".join("%d %d %d" % tuple(f) for f in q["frames"])))
+        elif q["k"] == "O":
+            out.append("O %d %d %d %d %d %d %d %d %d %d %d" % (q["id"], q["fs"], q["ch"], q["app"], q["br"], q["fec"], q["loss"], q["dur2"], q["mode"],
+                                                              q["seed"], q["n"]))
     return out
 
 
 def execute(ctx, exe, reqs, plans, tables, tag, nproc):
     """run the harness over the requests in nproc processes; returns list of (stdin_path, out_path, rc, err)"""
-    nproc = max(1, min(nproc, len(reqs) // 50 or 1))
+    nproc = max(1, min(nproc, len(reqs) // (8 if tag == "openc" else 50) or 1))
     per = (len(reqs) + nproc - 1) // nproc
     jobs = []
     for k in range(nproc):
@@ -228,6 +234,12 @@ def which_clause(ev):
                 "decoding, opus_packet_has_lbrr, or duration differ) - clauses of C02/C03 final range, C06 LBRR helper, C09/C01 duration")
     if k == "alloc":
         return "reservations at the head of clt_compute_allocation differ from the model (intensity / dual stereo)"
+    if k == "openc":
+        return ("speech/hybrid mode: the real Opus encoder and decoder did not stay in lock-step (final range / duration), or opus_packet_has_lbrr "
+                "disagrees with the flag the model reads from the first payload byte - clauses of C02 final range, C06 LBRR helper")
+    if k == "cenc":
+        return ("MDCT layer: the real encoder and the real decoder did not stay in lock-step on a frame with a budget near the header guards "
+                "(final range / duration / post-filter period) - clause of C02 'range-coder final state identical to the one the encoder reports'")
     return "event of unknown kind"
 
 
@@ -320,11 +332,50 @@ def scan_events(ctx, evpath, names_seen, plans):
                 OBS["silk_too_big"] += 1
             elif k == "alloc":
                 OBS["alloc_probes"] += 1
+            elif k == "openc":
+                OBS["opus_packets"] += 1
+                OBS["opus_packets_lbrr"] += 1 if e.get("lb") == 1 else 0
+                ctx.nontrivial.add(hash(("openc", e.get("toc"), e.get("n"), e.get("eh"), e.get("el"))))
+            elif k == "cenc":
+                OBS["encoder_frames"] += 1
+                OBS["encoder_pf_on"] += 1 if e.get("pp", 0) > 0 else 0
+                ctx.nontrivial.add(hash(("cenc", e["len"], e["pre"], e["LM"], e["C"], e["s"], e["e"], e["eh"], e["el"])))
     return n
 
 
-OBS = dict(celt_frames=0, celt_silence_zero=0, celt_pf_on=0, silk_packets=0, fec_eq_plc=0, has_lbrr=0, silk_too_big=0, alloc_probes=0,
+OBS = dict(opus_packets=0, opus_packets_lbrr=0, encoder_frames=0, encoder_pf_on=0, celt_frames=0, celt_silence_zero=0, celt_pf_on=0, silk_packets=0, fec_eq_plc=0, has_lbrr=0, silk_too_big=0, alloc_probes=0,
            mc_leaves_celt=0, mc_leaves_silk=0)
+
+
+def cenc_request(rng, rid):
+    """a run of frames through the real MDCT-layer encoder: budgets around the guard thresholds"""
+    LM = rng.randrange(4); C = rng.choice([1, 2])
+    s, e = rng.choice([(0, 13), (0, 17), (0, 19), (0, 21), (0, 21), (17, 19), (17, 21), (17, 21)])
+    frames = []
+    for k in range(rng.randrange(3, 9)):
+        u = rng.random()
+        ln = rng.randrange(2, 10) if u < 0.5 else rng.randrange(10, 40) if u < 0.9 else rng.randrange(40, 200)
+        pre = 0
+        if s > 0:
+            v = rng.random()
+            pre = max(0, 8 * ln - 1 - rng.randrange(0, 48)) if v < 0.6 else rng.randrange(0, 8 * ln)
+        sig = rng.choice([0, 1, 1, 2, 2, 2, 3, 4])
+        frames.append((ln, pre, sig))
+    lfe = 1 if (s == 0 and rng.random() < 0.25) else 0             # the LFE stream asks for dynalloc boosts in band 0 whatever the budget
+    if lfe:
+        C = 1
+    return dict(k="E", id=rid, LM=LM, C=C, s=s, e=e, cx=rng.choice([0, 2, 5, 8, 10]), seed=rng.randrange(1, 1 << 30), frames=frames, lfe=lfe)
+
+
+def opus_request(rng, rid, n):
+    """a run of packets through the real Opus encoder in the speech / hybrid mode with in-band FEC"""
+    hybrid = rng.random() < 0.3
+    fs = rng.choice([24000, 48000]) if hybrid else rng.choice([8000, 12000, 16000, 48000])
+    ch = rng.choice([1, 2, 2])
+    dur2 = rng.choice([20, 40]) if hybrid else rng.choice([20, 40, 80, 120])
+    br = rng.choice([24000, 32000, 48000, 64000]) if hybrid else rng.choice([12000, 16000, 24000, 32000, 40000])
+    return dict(k="O", id=rid, fs=fs, ch=ch, app=rng.choice([2048, 2048, 2049]), br=br * (2 if ch == 2 and rng.random() < 0.5 else 1), fec=1 if rng.random() < 0.8 else 0,
+                loss=rng.choice([5, 15, 30]), dur2=dur2, mode=1001 if hybrid else 1000, seed=rng.randrange(1, 1 << 30), n=n)
 
 
 def alloc_requests():
@@ -348,7 +399,9 @@ def run(ctx):
                 "passes the budget; decoder/encoder mirror image; reservations; speech-layer FEC-is-a-prefix, bookkeeping, placeholder, the LBRR "
                 "flag layout against Framing!HasLbrrOf); the leaves of that exploration and seeded random requests are turned into plans by TLC, "
                 "written with the library's range encoder in the model's order, decoded by the real decoders, and every recorded observation is "
-                "judged by FrameHdrTrace!CaseOK. non-trivial = distinct (op sequence, length) executions decoded by the real decoders")
+                "judged by FrameHdrTrace!CaseOK; runs of frames through the real MDCT-layer encoder with budgets around the guards are decoded by the "
+                "real decoder and judged too (equal final ranges). non-trivial = distinct (op sequence, length) executions decoded by the real decoders "
+                "and distinct (parameters, encoder final range) frames of the encoder runs")
     ctx.assumptions = ["TLC and the CommunityModules Json reader are trusted",
                        "the rest of an MDCT frame after the header (allocation, fine energy, PVQ, anti-collapse bit, finalise) is not modelled: the harness "
                        "re-decodes it with the library's own functions from the model's header ('shadow decoder') and TLC compares the real decoder's "
@@ -414,7 +467,15 @@ def run(ctx):
             dfs, dch = s["dfs"], s["dch"]
         s["dfs"], s["dch"] = dfs, dch
     areqs = alloc_requests()
-    ctx.notes["requests"] = dict(celt=len(reqs), silk=len(sreqs), alloc=len(areqs))
+    ereqs = []
+    for i in range(350 if q else 8000):
+        rid += 1
+        ereqs.append(cenc_request(rng, rid))
+    oreqs = []
+    for i in range(60 if q else 600):
+        rid += 1
+        oreqs.append(opus_request(rng, rid, 30 if q else 40))
+    ctx.notes["requests"] = dict(celt=len(reqs), silk=len(sreqs), alloc=len(areqs), encoder_runs=len(ereqs), opus_encoder_runs=len(oreqs))
     # 3. plans
     plans, tables = plan(ctx, reqs + sreqs, "all")
     # 4. execute on the current tree
@@ -433,7 +494,9 @@ def run(ctx):
         lo = b[0]; hi = bounds[(c + 1) * per] if (c + 1) * per < len(bounds) else len(sreqs)
         souts += execute(ctx, exe, sreqs[lo:hi], plans, tables, "silk%02d" % c, 1)
     aouts = execute(ctx, exe, areqs, plans, tables, "alloc", 1)
-    by_id = {x["id"]: x for x in reqs + sreqs}
+    aouts += execute(ctx, exe, ereqs, plans, tables, "cenc", 4 if q else nproc)
+    aouts += execute(ctx, exe, oreqs, plans, tables, "openc", 4 if q else nproc)
+    by_id = {x["id"]: x for x in reqs + sreqs + ereqs + oreqs}
     names_seen = set()
     for ip, op, rc, err in outs + souts + aouts:
         if rc != 0:
@@ -508,7 +571,7 @@ def report(ctx, exe, ev, by_id, tables):
     """R4: re-run the rejected case once; report it if it repeats"""
     if ev.get("k") == "?":
         raise vf.Infra("TLC rejected a chunk without a line number: " + ev.get("raw", "")[:800])
-    q = request_of_event(ev, by_id) if ev.get("k") in ("celt", "silk") else dict(k="A", s=ev["s"], e=ev["e"], C=ev["C"], LM=ev["LM"], total=ev["total"], id=0)
+    q = request_of_event(ev, by_id) if ev.get("k") in ("celt", "silk", "cenc", "openc") else dict(k="A", s=ev["s"], e=ev["e"], C=ev["C"], LM=ev["LM"], total=ev["total"], id=0)
     if q is None:
         raise vf.Infra("rejected event without request: " + json.dumps(ev)[:300])
     again = rerun(ctx, exe, [q], tables, "rerun%d" % len(ctx.violations))
